@@ -474,12 +474,18 @@ where
             return true;
         }
 
-        let (event, time) = self.future_event_set.fetch_next();
-
-        if self.limit.applies(self.itr + 1, time) {
-            self.future_event_set.add(time, event);
-            return true;
+        // Decide on the limit before the event is taken out of the event set.
+        // Fetching it and putting it back would reorder it behind other events
+        // of the same timestamp and advance the time of the event set.
+        if !matches!(self.limit, RuntimeLimit::None) {
+            if let Some(time) = self.future_event_set.peek_time() {
+                if self.limit.applies(self.itr + 1, time) {
+                    return true;
+                }
+            }
         }
+
+        let (event, time) = self.future_event_set.fetch_next();
 
         self.itr += 1;
 
